@@ -393,6 +393,27 @@ Proof.
     + eapply Permutation_in; [exact Hp|exact H].
 Qed.
 
+(* Complete() sends a request exactly when the batch holds at least one CALL -- whatever the byte size the batch has
+   accumulated (calls without key material have size 0): the emptiness test of the write batch counts calls, not bytes. *)
+Theorem complete_sends_iff_calls_nonempty : forall exec cfg n b,
+  (batch_calls cfg b <> [] ->
+     exists o p, complete exec cfg n b = (N.succ n, Sent n (to_proto cfg b) :: o, p)) /\
+  (cf_kind cfg = BWrite -> batch_calls cfg b = [] -> complete exec cfg n b = (n, [], false)).
+Proof.
+  intros exec cfg n b. split.
+  - intros Hne. unfold complete.
+    destruct (cf_kind cfg) eqn:K; destruct (Z.eqb (bsize cfg b) 0) eqn:Z0.
+    1:{ exfalso. apply Hne. unfold bsize, batch_calls in *. rewrite K in *. apply Z.eqb_eq in Z0.
+        destruct (b_puts b), (b_dels b), (b_ranges b); cbn in *; try lia. reflexivity. }
+    all: destruct (exec n (to_proto cfg b)) as [resp|e]; [destruct (handle cfg b resp) as [o p]|]; eauto.
+  - intros K Hnil. unfold complete. rewrite K.
+    assert (E : bsize cfg b = 0%Z).
+    { unfold bsize, batch_calls in *. rewrite K in *.
+      assert (L : length (b_puts b ++ b_dels b ++ b_ranges b) = 0) by (rewrite Hnil; reflexivity).
+      rewrite !app_length in L. lia. }
+    rewrite E. reflexivity.
+Qed.
+
 (* ---- the retry loop: exactly-once for every attempt script ---- *)
 
 Definition long_enough (q : request) (r : response) : Prop :=
